@@ -44,7 +44,7 @@ def run(res, tier):
                 "other settings untouched. distinct by (geometry, sequence)")
     res.trusted += ["numpy/scipy determinism; the placement of points is a function of skeleton and settings only is *checked* here, not proved"]
     rng = vlib.rng("C15")
-    nseq = 9 if tier == "quick" else 34
+    nseq = 11 if tier == "quick" else 36
     cases = []
     fixed = [("cdn", {}, [{"nonorthogonal_target_all_poloidal_spacing_length": 0.3}, {"nonorthogonal_target_all_poloidal_spacing_length": 0.15},
                           {"nonorthogonal_xpoint_poloidal_spacing_range": 0.02}]),
@@ -57,6 +57,11 @@ def run(res, tier):
              # the same settings twice, and a return to the initial method after another one
              ("cdn", {}, [{"nonorthogonal_radial_range_power": 3.0}, {"nonorthogonal_radial_range_power": 3.0}]),
              ("cdn", {}, [{"nonorthogonal_spacing_method": "poloidal_orthogonal_combined"}, {"nonorthogonal_spacing_method": "combined"}])]
+    # a step that is refused part-way (a target spacing length no spacing function can honour fails in a *late* region, after the early
+    # regions have been re-created), followed by a return to the initial settings / to other settings
+    FAIL = {"nonorthogonal_xpoint_poloidal_spacing_length": 0.5, "nonorthogonal_target_outer_lower_poloidal_spacing_length": 50.0, "__may_fail__": True}
+    fixed += [("lsn", {}, [dict(FAIL), {}]),
+              ("lsn", {}, [dict(FAIL), {"nonorthogonal_radial_range_power": 3.0}])]
     for g, o0, seq in fixed:
         cases.append((g, o0, seq))
     while len(cases) < nseq:
@@ -75,6 +80,7 @@ def run(res, tier):
         a = dict(base)
         a.update(o0)
         final = {k: v for k, v in seq[-1].items() if k.startswith("nonorthogonal_")}
+        assert not seq[-1].get("__may_fail__")
         b = dict(base)
         b.update(final)
         specs.append(gridlab.tokamak_spec(g, options=a, redistribute=seq, extract=["regions", "meshmeta"], **kw))
@@ -87,6 +93,12 @@ def run(res, tier):
         res.case(key=t, nontrivial=True, sample={"geometry": g, "initial": o0, "sequence": seq})
         if A["error"] or B["error"]:
             res.extra.setdefault("refused", []).append([t[:200], str((A["error"] or B["error"])[:2])[:160], "sequence" if A["error"] else "fresh"])
+            fs = A.get("failing_step")
+            if A["error"] and not B["error"] and (fs == "after-sequence" or fs == len(seq) - 1):
+                # the final settings are accepted from scratch, but not at the end of the history
+                res.violation("history-outcome", "%s: a mesh built from scratch with the final settings is generated, but after the sequence %s raises %s: %s"
+                              % (t, "the last step" if fs != "after-sequence" else "geometry()", A["error"][0], A["error"][1][:120]),
+                              {"geometry": g, "initial": o0, "sequence": seq})
             continue
         va, vb = A["vars"], B["vars"]
         # boundary (guard) cells beyond the targets
@@ -132,6 +144,8 @@ def run(res, tier):
             res.traces += 1
         # bookkeeping against the model
         rec, reg = A.get("recorded_nonorthogonal_options"), A.get("region_nonorthogonal_options")
+        if any(st.get("__may_fail__") for st in seq):
+            res.extra.setdefault("refused_steps", {})[t[:160]] = A.get("step_errors")
         if rec is None:
             continue
         stale = [n for n, ro in reg.items() if any(ro.get(kk) != rec.get(kk) for kk in rec)]
@@ -141,6 +155,8 @@ def run(res, tier):
                           % (t, stale[0], kk, reg[stale[0]].get(kk), rec.get(kk)), {"geometry": g, "initial": o0, "sequence": seq})
         if A["attrs"] if False else False:
             pass
+        if any(st.get("__may_fail__") for st in seq):
+            continue          # the Regrid model has no refused steps
         codes = {}
         allsets = [o0] + seq
         enc = []
